@@ -154,5 +154,13 @@ pub fn run(ctx: &mut Ctx, _name: &str) {
             }
         }
     }
+    if ctx.thorough {
+        // one level deeper for the configurations where refill and burst interact
+        for &rate in &[0u32, 1, 2] {
+            for &burst in &[1u32, 2] {
+                for cap in 1..=2usize { exhaustive(ctx, rate, burst, cap, 3, &[0, 256, 512], 5); }
+            }
+        }
+    }
     ctx.notes.push("times are multiples of 1/512 s: f64 token arithmetic is exact on this grid; retry-after compared within 2 ns".to_string());
 }
